@@ -33,7 +33,9 @@ from valjean.gavroche.test import TestEqual
 from valjean.gavroche.stat_tests.student import TestStudent
 from valjean.gavroche.diagnostics.metadata import TestMetadata
 from valjean.javert.representation import (Representation, TableRepresenter,
-                                           FullRepresenter)
+                                           FullRepresenter, ExternalRepresenter)
+from valjean.javert.templates import TextTemplate
+from valjean.javert.test_external import TestExternal
 from valjean.javert.rst import Rst
 from valjean.javert.test_report import TestReport
 from vlib.core import Failure, Outcome, exc_failure, valjean_frame
@@ -42,7 +44,8 @@ ID = 'C20'
 LEVEL = 'exploration'
 RULE = ('cases = report trees of 1-5 levels (6 levels in ~3 %: rejection expected) with 0-4 '
         'items per section (sub-sections and equal/Student/metadata results with distinct '
-        'fingerprints), titles drawn from a small pool so that they repeat among siblings and '
+        'fingerprints, and user-made TestExternal results that all share one name and description '
+        'and differ by their content), titles drawn from a small pool so that they repeat among siblings and '
         'along a path: ordinary words (blanks, dots, commas, unicode), reserved names (index, '
         'figures, conf, conf.py, index.rst, .static, .templates, <word>.rst), titles that cannot '
         'be file names (".", "..", with "/", with NUL, empty) and random single-line text; '
@@ -56,7 +59,9 @@ RULE = ('cases = report trees of 1-5 levels (6 levels in ~3 %: rejection expecte
 ASSUMPTIONS = [
     'titles are single-line, without leading/trailing blanks, at most 24 characters (longer than '
     'NAME_MAX is file-system dependent and is not generated)',
-    'every result has its own fingerprint and no TestReport/TestResult object occurs twice',
+    'every equal/Student/metadata result has its own fingerprint; external results share theirs '
+    '(same name and description) and are recognised by their body; no TestReport/TestResult '
+    'object occurs twice',
     'verbosity DEFAULT (SILENT/SUMMARY omit passing results by documented design); n_workers=None',
     'sections with the same chain of titles share one page (that is how the code keys sections); '
     'the page must then hold the texts and results of all of them, each exactly once',
@@ -110,7 +115,7 @@ _TITLE_MAYBE_INVALID = st.one_of(st.sampled_from([0] * 99 + [1]).flatmap(
     lambda bad: st.sampled_from(INVALID) if bad else _TITLE))
 
 _RESULT = st.builds(lambda kind, ok: {'r': kind, 'ok': ok},
-                    st.sampled_from(['eq', 'st', 'md']), st.booleans())
+                    st.sampled_from(['eq', 'st', 'md', 'eq', 'st', 'md', 'ex', 'ex']), st.booleans())
 
 
 @st.composite
@@ -274,6 +279,11 @@ def _result(idx, kind, okay):
     elif kind == 'st':
         test = TestStudent(_dataset(base, 'ref'), _dataset(other, 'oth'), name=name,
                            description=desc)
+    elif kind == 'ex':
+        # user-made results: the SAME name and description for all of them (the same check done
+        # in several sections), told apart only by what they show
+        test = TestExternal(TextTemplate(f'zqbody{idx}x\n\n'), name='external check',
+                            description='zqdescSHAREDx', success=okay)
     else:
         test = TestMetadata({'ref': {'code': 'T4', 'n': idx}, 'oth': {'code': 'T4', 'n': idx if okay else -1}},
                             name=name, description=desc)
@@ -373,6 +383,8 @@ def _labels(case, mod, out):
     out.labels.append(f'levels={levels}')
     if levels >= 4:
         out.labels.append('levels>=4')
+    if sum(kind == 'ex' for s in secs for _i, kind, _ok in s.results) >= 2:
+        out.labels.append('results-sharing-a-fingerprint')
     titles = [s.title for s in secs[1:]]
     reserved = any(t in RESERVED_SET for t in titles)
     if reserved:
@@ -450,7 +462,10 @@ def run_case(case):
         out.labels.append('reused-rst')
         prev_mod = _model(prev, PREV_BASE)
         prev_report, prev_fprints = _build(prev, PREV_BASE)
-    representer = TableRepresenter()
+    tables, externals = TableRepresenter(), ExternalRepresenter()
+
+    def representer(result, verbosity):      # tables, and the templates of user-made results
+        return list(tables(result, verbosity) or []) + list(externals(result, verbosity) or [])
     if case['full']:
         # figures for the first results only (a figure costs ~0.3 s)
         full, table = FullRepresenter(), representer
@@ -639,8 +654,11 @@ def _compare(mod, fprints, target, files):
                                      f'{page!r}'))
             # 3. every result exactly once, on the page of its section
             for ridx, kind, _ok in sec.results:
-                for what, needle in (('anchor', f'.. _anchor_{fprints[ridx]}:'),
-                                     ('description', f'zqdesc{ridx}x')):
+                needles = (('anchor', f'.. _anchor_{fprints[ridx]}:'),
+                           ('description', f'zqdesc{ridx}x'))
+                if kind == 'ex':         # shared name and description: only the body is its own
+                    needles = (('body', f'zqbody{ridx}x'),)
+                for what, needle in needles:
                     occ = occurrences(needle)
                     if occ != {page: 1}:
                         problems.append((
